@@ -289,6 +289,35 @@ def file_case(ctx, seed, tier):
     return changes or len(mid.tracks) > 1
 
 
+def real_clock_case(ctx, seed):
+    """play() with its default clock (time.time) and the real time.sleep: only the hard
+    guarantee is judged - no message before its scheduled time - plus the sequence."""
+    import time as _t
+    rng = random.Random(seed)
+    mid = MidiFile(ticks_per_beat=480)
+    tr = MidiTrack()
+    for i in range(6):
+        tr.append(Message('note_on', note=i, time=rng.choice((0, 2, 5))))      # 1 tick ~ 1.04 ms
+        if i == 2:
+            tr.append(MetaMessage('set_tempo', tempo=250000, time=1))
+    mid.tracks.append(tr)
+    model = model_seconds(mid)
+    want = [(w, c) for w, c in model if not w.is_meta]
+    case = {'kind': 'real-clock', 'seed': seed}
+    t0 = _t.time()
+    got = []
+    try:
+        for m in mid.play():
+            got.append((m, _t.time() - t0))
+    except Exception as exc:
+        ctx.fail('never early', f'real-clock-raised:{type(exc).__name__}', case, repr(exc))
+        return
+    ok = len(got) == len(want) and all(same_but_time(g, w) for (g, _), (w, _) in zip(got, want))
+    ctx.check('play yields the iterated messages (meta on request)', ok, 'real-clock-messages', case, None)
+    early = [(i, at, float(c)) for i, ((g, at), (w, c)) in enumerate(zip(got, want)) if at < float(c) - 0.0005]
+    ctx.check('never early', not early, 'real-clock-early', case, early[:3])
+
+
 def type2_cases(ctx):
     n = 0
     for ntr in (0, 1, 3):
@@ -345,6 +374,9 @@ def run(ctx):
             ctx.put_sample({'seed': seed, 'type': mid.type, 'ticks_per_beat': mid.ticks_per_beat,
                             'tracks': [[str(m)[:48] for m in t[:4]] for t in mid.tracks[:2]],
                             'length_exact': str(model_seconds(mid)[-1][1])})
+    for j in range(1 if ctx.tier == 'quick' else 10):
+        real_clock_case(ctx, f'{ctx.seed}:{ctx.shard}:rc{j}')
+        n += 1
     if ctx.shard == 0:
         k = type2_cases(ctx)
         ctx.nontrivial(None, k)
@@ -361,6 +393,8 @@ def replay(ctx, case):
     if k in ('file', 'play'):
         seed = case['seed'].split(':')
         file_case(ctx, ':'.join(seed[:3]), 'thorough')
+    elif k == 'real-clock':
+        real_clock_case(ctx, case['seed'])
     elif k == 'type2':
         type2_cases(ctx)
     else:
